@@ -244,7 +244,7 @@ def run_case(sh, i, plan):
         try:
             with warnings.catch_warnings():
                 warnings.simplefilter("ignore")
-                exec(compile(src, f"/verif/out/generated/{m.__name__}.py", "exec"), m.__dict__)
+                exec(compile(src, f"/verif/out/generated/{m.__name__}.py", "exec", dont_inherit=True), m.__dict__)
         except Exception as e:  # noqa: BLE001
             if kind == "plain":
                 for mm in mods.values():
